@@ -554,3 +554,10 @@ Proof. induction t as [|c t IH]; cbn [text_eqb]; [reflexivity|]. rewrite N.eqb_r
 
 Lemma const_eqb_str_refl : forall s, const_eqb (KStr s) (KStr s) = true.
 Proof. intros s. cbn [const_eqb]. apply text_eqb_refl. Qed.
+
+Print Assumptions hstep_const.
+Print Assumptions hstep_array.
+Print Assumptions hstep_index_get.
+Print Assumptions hstep_index_set.
+Print Assumptions hstep_builtin.
+Print Assumptions pool_find_emitted.
